@@ -304,6 +304,12 @@ pub struct World {
     pub server_config: Option<String>,
     /// connections dialled to one of these ports get `first_atomic` pipes
     pub first_atomic_ports: Vec<u16>,
+    /// nodes that are out of descriptors for the moment: accept(), connect() (no socket to be had), datagram bind() and -
+    /// through the harness's `open` interposition - file opens of these nodes' tasks fail with EMFILE until the node is taken
+    /// off the list again
+    /// (node, mask of the operations that find no descriptor: 1 = accept, 2 = connect, 4 = datagram bind, 8 = file open -
+    /// which calls of a process at its limit fail depends on what was closed in between, so any subset is possible)
+    pub fd_exhausted_nodes: Vec<(u8, u8)>,
     /// when set, every datagram handed to `send_to` is recorded as (from, to, bytes) – the wire sniffer of C12
     pub udp_capture: Option<Vec<(SocketAddr, SocketAddr, Vec<u8>)>>,
     /// in-path attacker: datagrams whose source or destination port is listed are not delivered but parked in `udp_held`
@@ -344,6 +350,7 @@ impl World {
             client_config: None,
             server_config: None,
             first_atomic_ports: Vec::new(),
+            fd_exhausted_nodes: Vec::new(),
             udp_capture: None,
             initial_packet_id: (None, None),
             udp_drop_to_ports: Vec::new(),
@@ -378,6 +385,22 @@ impl World {
         let p = self.next_port;
         self.next_port = if self.next_port >= 65000 { 40000 } else { self.next_port + 1 };
         p
+    }
+
+    /// the node has no descriptor to spare at the moment (counts as a fired fault)
+    pub fn fd_exhausted(&mut self, node: u8, what: &'static str) -> bool {
+        let bit = match what {
+            "emfile_accept" => 1,
+            "emfile_connect" => 2,
+            "emfile_udp_bind" => 4,
+            _ => 8,
+        };
+        if self.fd_exhausted_nodes.iter().any(|(n, m)| *n == node && m & bit != 0) {
+            *self.stats.faults_fired.entry(what).or_insert(0) += 1;
+            true
+        } else {
+            false
+        }
     }
 
     /// Consume one matching fault rule, if any.
